@@ -230,7 +230,7 @@ def apply_pattern(src, pattern, template, guard=None):
 
 # ---------------------------------------------------------------- built-in rewrites
 
-LOG_MACROS = ('debug', 'info', 'error', 'trace', 'warn', 'println', 'eprintln')
+LOG_MACROS = ('debug', 'info', 'error', 'trace', 'warn', 'println', 'eprintln')  # statement-position logging macros
 EFFECT_CALL = re.compile(r'\b(set_|push|insert|remove|delete|take|update|emit|send|spawn|exec|run|next|create|upsert|do_|clear|drain|pop|append|extend|retain|write|lock|unwrap)[A-Za-z0-9_]*\s*\(')
 
 
